@@ -306,8 +306,8 @@ def gen_seq(rng, fam=None):
             ops.append(one(k))
         if nshift == 0:
             ops.append(one("S"))
-    per_axis_ok = dim == 3 or fam in ("grad", "time")
-    kvalue = rng.choice([1.0, 2.5, 0.25, 2.5] + ([[2.5, 1.0, 0.5], [0.5, 2.0, 1.0]] if per_axis_ok else []))
+    # per-axis kvalue with fewer than 3 wavenumber axes: raised before fix a7573d2 (StateMatrix.ktvalue)
+    kvalue = rng.choice([1.0, 2.5, 0.25, 2.5, [2.5, 1.0, 0.5], [0.5, 2.0, 1.0]])
     tvalue = rng.choice([1.0, 2.0, 0.5])
     return {"fam": fam, "ops": ops, "kvalue": kvalue, "tvalue": tvalue, "kgrid": KGRID, "reuse": rng.random() < 0.8}
 
